@@ -133,4 +133,32 @@ func init() {
 		"	storageChannels := toStorage(toCreate)", "	storageChannels := toStorage(*channels)", "C15.R4.order")
 	mut("C15", "proxy drops entries leased to the host when it is node 1", "core/pkg/distribution/proxy/proxy.go",
 		"		} else if lease == f.Host {\n			b.Gateway = append(b.Gateway, entry)\n		} else {", "		} else if lease == f.Host {\n			if lease != 1 {\n				b.Gateway = append(b.Gateway, entry)\n			}\n		} else {", "C15.R4.order")
+
+	// ---------------- C07
+	const wsvc = "core/pkg/distribution/framer/writer/service.go"
+	const isvc = "core/pkg/distribution/framer/iterator/service.go"
+	const wsync = "core/pkg/distribution/framer/writer/synchronizer.go"
+	const isync = "core/pkg/distribution/framer/iterator/synchronizer.go"
+	mut("C07", "writer opens without checking that its channels exist", wsvc,
+		"	channels, err := s.validateChannelKeys(ctx, cfg.Keys)\n	if err != nil {\n		return nil, err\n	}\n", "	channels, err := s.validateChannelKeys(ctx, cfg.Keys)\n	if err != nil {\n		s.cfg.L.Warn(err.Error())\n	}\n", "C07.R1.exist")
+	mut("C07", "writer validator tolerates missing channels", wsvc,
+		"	if len(channels) != len(keys) {\n		missing, _ := lo.Difference(keys, channel.KeysFromChannels(channels))", "	if len(channels) == 0 {\n		missing, _ := lo.Difference(keys, channel.KeysFromChannels(channels))", "C07.R1.exist")
+	mut("C07", "iterator existence gate gains a second filter", isvc,
+		"	q := s.cfg.Channel.NewRetrieve().Where(channel.MatchKeys(keys...))", "	q := s.cfg.Channel.NewRetrieve().Where(channel.MatchKeys(keys...)).Where(channel.MatchVirtual(false))", "C07.R1.exist")
+	mut("C07", "iterator validates after opening peers", isvc,
+		"	if err := s.validateChannelKeys(ctx, cfg.Keys); err != nil {\n		return nil, err\n	}\n	cfg.Keys = cfg.Keys.Unique()", "	cfg.Keys = cfg.Keys.Unique()", "C07.R1.exist")
+	mut("C07", "writer synchronizer returns the last response", wsync,
+		"	return s.cycle.res, fulfilled, nil", "	return res, fulfilled, nil", "C07.R2.sync")
+	mut("C07", "iterator synchronizer returns the last response", isync,
+		"	return s.cycle.res, fulfilled, nil", "	return res, fulfilled, nil", "C07.R2.sync")
+	mut("C07", "writer synchronizer ignores refusals", wsync,
+		"	if !res.Authorized && s.cycle.res.Authorized {\n		s.cycle.res.Authorized = false\n	}\n", "", "C07.R2.sync")
+	mut("C07", "synchronizer sized by the number of channels", wsvc,
+		"newSynchronizer(len(cfg.Keys.UniqueLeaseholders()), s.cfg.Instrumentation),", "newSynchronizer(len(cfg.Keys), s.cfg.Instrumentation),", "C07.R2.sync")
+	mut("C07", "gateway responses bypass the synchronizer", wsvc,
+		"	lo.Must0(seg.RouteOutletFrom(validatorResponsesAddr, synchronizerAddr))", "	lo.Must0(seg.RouteOutletFrom(validatorResponsesAddr, gatewayWriterAddr))", "C07.R2.sync")
+	mut("C07", "peer sender keeps stale targets", "freighter/go/freightfluence/sender.go",
+		"				delete(addrMap, target)\n", "", "C07.R3.sender")
+	mut("C07", "validator inspects masked-out series", "core/pkg/distribution/framer/writer/validator.go",
+		"ShouldExcludeRaw(rawI)", "ShouldExcludeRaw(rawI+0*len(k.String()))", "C07.R4.mask")
 }
